@@ -135,6 +135,9 @@ func (p *c10Proc) ForceFlush(context.Context) error { return nil }
 
 const c10Wait = 3 * time.Second
 
+// number of scripts in which something hung: after a few the generator stops (every further one would cost seconds)
+var c10Hangs atomic.Int32
+
 func c10RunSched(task string, pgate bool, lim [6]int, name string, ops [][]string) (string, string) {
 	tp := NewTracerProvider(WithRawSpanLimits(SpanLimits{
 		AttributeCountLimit: lim[0], AttributeValueLengthLimit: lim[1], EventCountLimit: lim[2],
@@ -175,6 +178,7 @@ func c10RunSched(task string, pgate bool, lim [6]int, name string, ops [][]strin
 	}
 	rs.mu.Unlock()
 
+	hung := false
 	state := map[int]string{} // End call -> last observation
 	await := func(k int) string {
 		r.mu.Lock()
@@ -186,12 +190,29 @@ func c10RunSched(task string, pgate bool, lim [6]int, name string, ops [][]strin
 			return o
 		case <-time.After(c10Wait):
 			state[k] = "H"
+			hung = true
 			return "H"
 		}
 	}
 	obs := make([]string, 0, len(ops))
 	nTr := 0
+	// synchronous ops run under a watchdog: a span method that blocks (mutex held across a gate) is an observation
+	guarded := func(f func()) string {
+		done := make(chan struct{})
+		r.wg.Add(1)
+		go func() { defer r.wg.Done(); f(); close(done) }()
+		select {
+		case <-done:
+			return "-"
+		case <-time.After(c10Wait):
+			hung = true
+			return "H"
+		}
+	}
 	for _, op := range ops {
+		if hung {
+			break
+		}
 		o := "-"
 		switch op[0] {
 		case "e":
@@ -212,12 +233,20 @@ func c10RunSched(task string, pgate bool, lim [6]int, name string, ops [][]strin
 				r.mu.Lock()
 				r.calls[g] = k
 				r.mu.Unlock()
-				span.End(trace.WithTimestamp(c10Base.Add(time.Duration(k) * time.Second)))
+				res := "r"
+				func() {
+					defer func() {
+						if recover() != nil {
+							res = "X" // a panic inside End is an observation
+						}
+					}()
+					span.End(trace.WithTimestamp(c10Base.Add(time.Duration(k) * time.Second)))
+				}()
 				r.mu.Lock()
 				delete(r.calls, g)
 				r.mu.Unlock()
 				select {
-				case ev <- "r":
+				case ev <- res:
 				case <-r.open:
 				}
 			}()
@@ -236,14 +265,21 @@ func c10RunSched(task string, pgate bool, lim [6]int, name string, ops [][]strin
 				}
 			}
 		case "ir":
-			o = vC04B(span.IsRecording())
+			var v bool
+			if o = guarded(func() { v = span.IsRecording() }); o == "-" {
+				o = vC04B(v)
+			}
 		case "ch":
-			_, child := tr.Start(ctx, "child")
-			child.End()
+			o = guarded(func() {
+				_, child := tr.Start(ctx, "child")
+				child.End()
+			})
 		case "ot":
 			nTr++
-			_ = tp.Tracer("t" + strconv.Itoa(nTr%3))
-			_ = tp.ForceFlush(context.Background())
+			o = guarded(func() {
+				_ = tp.Tracer("t" + strconv.Itoa(nTr%3))
+				_ = tp.ForceFlush(context.Background())
+			})
 		case "rg":
 			p, _ := strconv.Atoi(op[1])
 			if !registered[p] {
@@ -261,32 +297,38 @@ func c10RunSched(task string, pgate bool, lim [6]int, name string, ops [][]strin
 			tp.UnregisterSpanProcessor(procs[p])
 			registered[p] = false
 		case "sa":
-			span.SetAttributes(vC04ParseKVs(op[1])...)
+			o = guarded(func() { span.SetAttributes(vC04ParseKVs(op[1])...) })
 		case "ev":
 			kvs := vC04ParseKVs(op[2])
-			if kvs == nil {
-				span.AddEvent(vUnhex(op[1]))
-			} else {
-				span.AddEvent(vUnhex(op[1]), trace.WithAttributes(kvs...))
-			}
+			o = guarded(func() {
+				if kvs == nil {
+					span.AddEvent(vUnhex(op[1]))
+				} else {
+					span.AddEvent(vUnhex(op[1]), trace.WithAttributes(kvs...))
+				}
+			})
 		case "ln":
-			span.AddLink(trace.Link{SpanContext: vC04ParseSC(op[1]), Attributes: vC04ParseKVs(op[2])})
+			o = guarded(func() {
+				span.AddLink(trace.Link{SpanContext: vC04ParseSC(op[1]), Attributes: vC04ParseKVs(op[2])})
+			})
 		case "re":
 			var err error
 			if op[1] != "-" {
 				err = errors.New(vUnhex(op[1]))
 			}
 			kvs := vC04ParseKVs(op[2])
-			if kvs == nil {
-				span.RecordError(err)
-			} else {
-				span.RecordError(err, trace.WithAttributes(kvs...))
-			}
+			o = guarded(func() {
+				if kvs == nil {
+					span.RecordError(err)
+				} else {
+					span.RecordError(err, trace.WithAttributes(kvs...))
+				}
+			})
 		case "st":
 			c, _ := strconv.Atoi(op[1])
-			span.SetStatus(codes.Code(c), vUnhex(op[2]))
+			o = guarded(func() { span.SetStatus(codes.Code(c), vUnhex(op[2])) })
 		case "nm":
-			span.SetName(vUnhex(op[1]))
+			o = guarded(func() { span.SetName(vUnhex(op[1])) })
 		default:
 			panic("bad op " + op[0])
 		}
@@ -296,19 +338,30 @@ func c10RunSched(task string, pgate bool, lim [6]int, name string, ops [][]strin
 	r.mu.Lock()
 	dels := append([]c10Del{}, r.dels...)
 	r.mu.Unlock()
-	fin := []string{fmt.Sprintf("%s %d %d", vC04B(span.IsRecording()), rs.ChildSpanCount(), c10EtIdx(rs.EndTime()))}
+	fin := []string{"0 0 0"}
+	if !hung {
+		if guarded(func() {
+			fin[0] = fmt.Sprintf("%s %d %d", vC04B(span.IsRecording()), rs.ChildSpanCount(), c10EtIdx(rs.EndTime()))
+		}) == "H" {
+			obs = append(obs, "H")
+		}
+	}
 	for _, d := range dels {
 		fin = append(fin, fmt.Sprintf("%d %d %d %s %s", d.p, c10EtIdx(d.s.EndTime()), d.s.ChildSpanCount(),
 			vC04B(vC04Dump(d.s) == d.dump), d.dump))
 	}
 	// clean up: open every gate, wait for the End goroutines (goleak TestMain)
 	close(r.open)
+	if hung {
+		c10Hangs.Add(1)
+	}
 	done := make(chan struct{})
 	go func() { r.wg.Wait(); close(done) }()
 	select {
 	case <-done:
-	case <-time.After(10 * time.Second):
+	case <-time.After(c10Wait):
 		obs = append(obs, "H")
+		c10Hangs.Add(1)
 	}
 	return task, strings.Join(obs, " ") + " ## " + strings.Join(fin, " ; ")
 }
@@ -399,13 +452,15 @@ func TestVerifC10Sched(t *testing.T) {
 			for i := range lim {
 				lim[i], _ = strconv.Atoi(f[4+i])
 			}
-			c10SchedLine(out, f[1], f[2], f[3] == "1", lim, vUnhex(f[10]), vC04Split(f[11:]))
+			if c10Hangs.Load() < 3 {
+				c10SchedLine(out, f[1], f[2], f[3] == "1", lim, vUnhex(f[10]), vC04Split(f[11:]))
+			}
 		}
 		return
 	}
 	r := &vRand{s: vSeed() ^ 0xc10}
 	n := vN(1500)
-	for i := 0; i < n; i++ {
+	for i := 0; i < n && c10Hangs.Load() < 3; i++ {
 		task, pgate, lim, name, ops := c10GenSched(r)
 		c10SchedLine(out, "rnd", task, pgate, lim, name, ops)
 	}
